@@ -4,6 +4,8 @@ coverage minimums below which a run is INCONCLUSIVE."""
 
 
 def sim(family, count, race=False, wall=240):
+    if race:
+        wall = max(wall, 600)  # the oracle pass over a large event log is slow under the race detector
     return {"pkg": "exec", "test": "TestExec", "family": family, "count": count, "race": race, "wall": wall, "engine": "SIM"}
 
 
